@@ -124,16 +124,16 @@ Definition mk_sop (seed pos : N) (kind a b : N) (k : nat) : option sop :=
   let defer := 1024 <=? b in
   let b' := nn (b mod 1024) in
   match kind with
-  | 1 => Some (SWrite (pat_buf seed pos (nn a) b') k)
+  | 1 | 6 => Some (SWrite (pat_buf seed pos (nn a) b') k)   (* 6: write_with_ancillary, empty control *)
   | 3 => Some (SWriteZc (pat_buf seed pos (nn a) b') k true)
-  | 2 | 4 =>
+  | 2 | 4 | 7 =>
     let sizes := split_sizes (nn a) (clampn b' 1 8) in
     let ms := (fix go (sizes : list nat) (i : nat) (p : N) : list ubuf :=
                  match sizes with
                  | [] => []
                  | s :: r => pat_buf seed p s (Nat.modulo (i * 3) 5) :: go r (S i) (p + NN s)
                  end) sizes O pos in
-    Some (if kind =? 2 then SWriteV ms k else SWriteZcV ms k true)
+    Some (if kind =? 4 then SWriteZcV ms k true else SWriteV ms k)
   | _ => None
   end.
 
@@ -158,11 +158,15 @@ Definition mk_rop (c : scase) (dir : N) (idx : nat) (kind : N) (n : nat) : optio
   | Some (k, a, b) =>
     if negb (k =? kind) then None else
     match k with
-    | 1 => let cap := nn a in Some (RPlain (Nat.min (nn b) cap) cap n, cap)
+    | 1 | 6 => let cap := nn a in Some (RPlain (Nat.min (nn b) cap) cap n, cap)   (* 6: read_with_ancillary *)
     | 2 => let caps := split_sizes (nn a) (clampn (nn b) 1 8) in
            Some (RVectored caps n, fold_right Nat.add O caps)
-    | 3 => Some (RManaged (nn a) n, managed_cap (c_plen c) (nn a))
+    | 3 | 7 => Some (RManaged (nn a) n, managed_cap (c_plen c) (nn a))       (* 7: read_managed_with_ancillary *)
     | 4 => Some (RMulti (nn a) fb [[(n, false)]] None, managed_cap (c_plen c) (nn a))
+    | 8 => (* read_multi_with_ancillary(64): on io_uring the provided buffer also
+              holds the recvmsg header, the name area and the control area *)
+      let cap8 := if fb then c_plen c else mshot_payload_cap (c_plen c) 64 in
+      Some (RMulti cap8 fb [[(n, false)]] None, managed_cap (c_plen c) cap8)
     | _ => None
     end
   | None =>
@@ -233,14 +237,15 @@ Definition step_stream (c : scase) (st : dstate * dstate) (e : ev7)
     let eof := (n =? 0) && negb (Nat.eqb cap O) in
     let d' := mkd s1 (d_spos d) (d_rpos d + n) (d_gap_ok d) (d_gaps d) (d_rcvd d + n)
                   (d_eofs d + (if eof then 1 else 0))
-                  (d_items d + (if f6 =? 4 then 1 else 0)) in
+                  (d_items d + (if (f6 =? 4) || (f6 =? 8) then 1 else 0)) in
     Some (set_dir st dir d', (3, dir, b, n, d_rpos d, obs_hash o, f6))
   | 4 => (* end of a multishot session: [4 dir idx reason items pos 0] *)
     let dir := a in
     if negb ((dir =? 1) || (dir =? 2)) then None else
     let d0' := get_dir st dir in
-    let? '(k, la, _) := nth_error (recv_prog c dir) (nn b) in
-    if negb (k =? 4) then None else
+    let? '(k, la0, _) := nth_error (recv_prog c dir) (nn b) in
+    if negb ((k =? 4) || (k =? 8)) then None else
+    let la := if k =? 8 then 0 else la0 in
     if c3 =? 0 then
       (* the stream ended by itself: this is an end-of-stream observation *)
       let? d := apply_gap d0' e5 in
@@ -282,10 +287,10 @@ Definition stream_case (l : list N) : option (list N) :=
     if negb ((drv <=? 1) && (tr <=? 1) && (split <=? 2) && (sbuf <=? 4194304) && (rbuf <=? 4194304)
              && (1 <=? plen) && (plen <=? 65536) && (1 <=? psize) && (psize <=? 64) && (seed <=? 60000))
     then None else
-    let? '(pa, l) := dec_prog 5 l in
-    let? '(pb, l) := dec_prog 5 l in
-    let? '(pc, l) := dec_prog 5 l in
-    let? '(pd, l) := dec_prog 5 l in
+    let? '(pa, l) := dec_prog 7 l in
+    let? '(pb, l) := dec_prog 8 l in
+    let? '(pc, l) := dec_prog 7 l in
+    let? '(pd, l) := dec_prog 8 l in
     match l with
     | [99999] => None
     | _ =>
@@ -438,7 +443,8 @@ Definition dgram_case (l : list N) : option (list N) :=
     then None else
     let? '(ds, l) := dec_dgs (nn n) l in
     if negb (forallb (fun g => (g_size g <=? 60000) && (g_cap g <=? 70000) && (g_sender g <? nsend)
-                               && (g_flags g <=? 1) && (1 <=? g_skind g) && (g_skind g <=? 5)
+                               && (g_flags g <=? 1) && (1 <=? g_skind g) && (g_skind g <=? 9)
+                               && ((g_skind g <=? 5) || (tr =? 0))
                                && (1 <=? g_rkind g) && (g_rkind g <=? 9)
                                && negb ((g_flags g =? 1) && (tr =? 0))) ds)
     then None else
